@@ -226,7 +226,9 @@ def verify_unit(unit, repo, scratch, extra):
         rc, r, diags, err, wall, cmd = res
         bad = []
         for d in diags:
-            if d.get('level') != 'error' or classify(d.get('message', '')) is not None:
+            if d.get('level') != 'error':
+                continue
+            if classify(d.get('message', '')) is not None and not specless_index(d, ur):
                 continue
             msg = d.get('message', '')
             if msg.startswith('aborting due to') or msg.startswith('For more information'):
@@ -243,6 +245,25 @@ def verify_unit(unit, repo, scratch, extra):
         log('verifier rejected the body of %s: degraded, verifying the rest' % ', '.join(bad))
         degrade += bad
     return ur, res
+
+
+def specless_index(d, ur):
+    """`E[i]` on a type for which neither vstd nor the prelude has an index specification (e.g. a slice indexed by a range):
+    Verus reports the unprovable generic `index_req` as a failed precondition. That is a missing specification, not a
+    failed obligation of the code: the function is degraded (undecided). The prelude's own IndexSpecImpl is for
+    DMatrix[(i, j)], recognised by the tuple index."""
+    if 'precondition not satisfied' not in d.get('message', ''):
+        return False
+    in_vstd = any(sp.get('label') == 'failed precondition' and sp['file_name'].replace('\\', '/').endswith('std_specs/core.rs') for sp in d.get('spans', []))
+    if not in_vstd:
+        return False
+    for sp in d.get('spans', []):
+        if os.path.basename(sp['file_name']) == os.path.basename(ur.file) and sp.get('text'):
+            t = sp['text'][0]
+            frag = t['text'][max(0, t.get('highlight_start', 1) - 1):t.get('highlight_end', len(t['text']))]
+            if re.search(r'\[\s*\(', frag):
+                return False
+    return True
 
 
 def classify(msg):
